@@ -1,6 +1,7 @@
 import Blue.Generated.Consts
 import Blue.Model.Verifier
 import Blue.Model.Orphans
+import Blue.Model.VerifierRange
 /-! Names and keys the verifier / orphan models hard-code, regenerated from lsmtk's source on every
     run (`translate/extract.py`) and tied here (C08). -/
 namespace Blue.ConstsTie
@@ -15,6 +16,17 @@ theorem c08_info_keys : Blue.Generated.lsmtkVerifierEditInfoKeys = [68, 73, 76, 
 /-- `LsmVerifier::verify` pops `MANIFEST` and the newest fragment: `entries d = d.frags.dropLast`
     (`frags` holds the numbered fragments only) -/
 theorem c08_entries_popped : Blue.Generated.lsmtkVerifierEntriesPopped = 2 := by decide
+/-- `LsmVerifier::verify` calls `last_removals(&entries)` BEFORE the first `entries.pop()`: its range is
+    every entry `list_mani_fragments` returned — the newest numbered fragment and `MANIFEST` included
+    (`Blue.Verifier.laterRm`, `lastRemovalsRange`); called after the pops it would be `laterRmNarrow`,
+    for which `Blue.Verifier.narrowed_range_loses_copy` is the counterexample -/
+theorem c08_last_removals_before_pops :
+    Blue.Verifier.popsBeforeLastRemovals = Blue.Generated.lsmtkVerifierPopsBeforeLastRemovals := by decide
+/-- `LsmTree::cleanup_orphans` scans every entry `list_mani_fragments` returns, the live `MANIFEST`
+    (its last entry) included, as it is at that moment (`Blue.Orphans.scanInput`); a scan that pops it
+    is `scanSkipLive`, for which `Blue.Orphans.skip_live_moves_relisted` is the counterexample -/
+theorem c08_cleanup_scans_every_entry :
+    Blue.Orphans.entriesDropped = Blue.Generated.lsmtkCleanupOrphansEntriesDropped := by decide
 -- `Blue.Generated.lsmtkCompactionPinsOutputs` (0 / 1) says whether `compaction_finish` takes a
 -- reference together with the link of an output (`Blue.FileLink`, `pin`); the harness asks for the
 -- protocol the code shows on the directed schedule, so nothing is tied to it here.
